@@ -20,5 +20,41 @@ static const Reg regs[] = {
 	C01_SET("S.ON.c.f", ON, 8, 8, 0, true, false),
 	C01_MAP("M.ON.a.p", ON, 4, 4, 0, false, true),
 };
-static void leaf(const std::vector<std::string>& w) { puts("?leaf"); }
+// kf <which> <args>: the per-kind leaves translated into Gen_LimP1t / Gen_Lim4 / Gen_LimP (translator validation)
+typedef internal::HashSetBucketItemTraits<HashSetItemTraits<uint64_t, MemManagerDefault>> BIT;
+typedef internal::BucketLimP1<BIT, 4, MemPoolParams<>> KLimP1;
+typedef internal::BucketLim4<BIT, 2, 32> KLim4;
+typedef internal::BucketLimP<BIT, 8, MemPoolParams<>, true> KLimP;
+template<class T> static T* raw_new() { alignas(T) static unsigned char buf[sizeof(T)]; return new (buf) T(); }	// static storage, never destroyed (no leak for ASan)
+static void leaf(const std::vector<std::string>& w)
+{
+	if (w.size() < 2) { puts("?leaf"); return; }
+	size_t which = std::stoull(w[0]);
+	if (which == 0)
+	{	// LimP1 state byte -> count, pool index, IsFull, WasFull
+		KLimP1* b = raw_new<KLimP1>(); b->mState = uint8_t(std::stoull(w[1]));
+		printf("%llu %llu %d %d\n", ull(b->pvGetCount()), ull(b->pvGetMemPoolIndex()), int(b->IsFull()), int(b->WasFull()));
+	}
+	else if (which == 1) printf("%llu\n", ull(KLimP1::pvGetMemPoolIndex(size_t(std::stoull(w[1])))));
+	else if (which == 2)
+	{	// Lim4 state word (0 = stateNull, 1 = stateNullWasFull, otherwise literal) -> WasFull
+		KLim4* b = raw_new<KLim4>(); size_t v = std::stoull(w[1]);
+		b->mPtrState = (v == 0) ? KLim4::stateNull : (v == 1) ? KLim4::stateNullWasFull : uint32_t(v);
+		printf("%d\n", int(b->WasFull()));
+	}
+	else if (which == 3 && w.size() == 4)
+	{	// Lim4 pvSet(ptr, memPoolIndex, count) -> state word, pool index read back
+		KLim4* b = raw_new<KLim4>();
+		b->pvSet(uint32_t(std::stoull(w[1])), size_t(std::stoull(w[2])), size_t(std::stoull(w[3])));
+		printf("%llu %llu\n", ull(b->mPtrState), ull(b->pvGetMemPoolIndex()));
+	}
+	else if (which == 4)
+	{	// LimP pointer-state word (0 = null, 1 = null-was-full, otherwise literal) -> WasFull
+		KLimP* b = raw_new<KLimP>(); size_t v = std::stoull(w[1]);
+		b->mPtrState = (v == 0) ? KLimP::stateNull : (v == 1) ? KLimP::stateNullWasFull : uintptr_t(v);
+		printf("%d\n", int(b->WasFull()));
+	}
+	else if (which == 5) printf("%llu\n", ull(KLimP::pvGetMemPoolIndex(size_t(std::stoull(w[1])))));
+	else puts("?leaf");
+}
 int main() { return c01_main(regs, sizeof(regs) / sizeof(regs[0]), &leaf); }
